@@ -102,3 +102,129 @@ def r9_sweep(ctx: Ctx) -> list[Ob]:
     for f in ctx.repo.iter_functions():
         out += [o for o in r9_function(ctx, f)]
     return out
+
+
+# ------------------------------------------------------------------------------------------ R9u
+def root_units(ctx: Ctx, fq: str = "cirkit.templates.region_graph.graph.RegionGraph.build_circuit") -> list[Ob]:
+    """R9u -- the layer a *root* region ends up with has ``num_classes`` output units.
+
+    ``build_circuit`` records the layer of every region in ``node_to_layer`` and returns the layers
+    of the root regions as outputs.  Every store ``node_to_layer[<region>] = L`` (in the function
+    and in its nested builders; the stores for partition nodes are exempt) is either control-
+    dependent on the region having consumers (``if region_outputs`` / ``if self.region_outputs(..)``:
+    not a root), or ``L`` is built with ``num_classes`` -- directly or through a local defined as
+    ``num_sum_units if <region outputs> else num_classes`` -- as its number of output units.  A
+    store that satisfies neither hands a root region a layer with another number of units: a region
+    graph whose root is a leaf region (one variable, depth 0) then ignores ``num_classes``."""
+    from ..flow import LocalDefs
+
+    f = ctx.repo.func(fq)
+    out: list[Ob] = []
+    funcs: list[ast.AST] = [f.node] + [n for n in ast.walk(f.node) if isinstance(n, ast.FunctionDef) and n is not f.node]
+    par: dict[int, ast.AST] = {}
+    for n in ast.walk(f.node):
+        for ch in ast.iter_child_nodes(n):
+            par[id(ch)] = n
+
+    def owner(n: ast.AST) -> ast.AST:
+        cur = par.get(id(n))
+        while cur is not None and not isinstance(cur, ast.FunctionDef):
+            cur = par.get(id(cur))
+        return cur if cur is not None else f.node
+
+    def mentions_outputs(t: ast.AST) -> bool:
+        return any((isinstance(x, ast.Name) and x.id == "region_outputs") or (isinstance(x, ast.Attribute) and x.attr == "region_outputs") for x in ast.walk(t))
+
+    lds: dict[int, LocalDefs] = {}
+    n_sites = 0
+    for st in ast.walk(f.node):
+        if not (isinstance(st, ast.Assign) and len(st.targets) == 1 and isinstance(st.targets[0], ast.Subscript) and isinstance(st.targets[0].value, ast.Name) and st.targets[0].value.id == "node_to_layer"):
+            continue
+        fn = owner(st)
+        ld = lds.setdefault(id(fn), LocalDefs(fn))  # type: ignore[arg-type]
+        # exempt: partition nodes (inside `if isinstance(<x>, PartitionNode)`)
+        cur: ast.AST | None = st
+        partition = False
+        guarded = False
+        while cur is not None and cur is not fn:
+            up = par.get(id(cur))
+            if isinstance(up, ast.If) and any(cur is b for b in up.body):
+                if any(isinstance(x, ast.Name) and x.id == "PartitionNode" for x in ast.walk(up.test)):
+                    partition = True
+                if mentions_outputs(up.test) and not (isinstance(up.test, ast.UnaryOp) and isinstance(up.test.op, ast.Not)):
+                    guarded = True
+            cur = up
+        if partition:
+            continue
+        n_sites += 1
+        loc = f"{f.module.relpath}:{st.lineno}"
+        inst = f"root-units:{unparse(st.value)[:20]}@{getattr(fn, 'name', '?')}"
+        if guarded:
+            out.append(ok("R9u", f.qualname, inst, "stored only for regions that have consumers (not a root)", loc))
+            continue
+
+        def units_ok(e: ast.AST, depth: int = 3) -> bool | None:
+            if isinstance(e, ast.Name) and depth:
+                ds = [d for d in ld.defs.get(e.id, []) if isinstance(d, ast.expr)]
+                # the definition that reaches the store on the straight line before it (a loop variable
+                # of the same name bound earlier does not)
+                before = [d for d in ds if getattr(d, "lineno", 0) <= st.lineno]
+                if before:
+                    last = max(getattr(d, "lineno", 0) for d in before)
+                    ds = [d for d in before if getattr(d, "lineno", 0) == last]
+                if not ds:
+                    return None
+                rs = [units_ok(d, depth - 1) for d in ds]
+                return None if any(r is None for r in rs) else all(rs)
+            if isinstance(e, ast.Call):
+                cand = [k.value for k in e.keywords if k.arg == "num_output_units"] or ([e.args[1]] if len(e.args) > 1 else [])
+                if not cand:
+                    return False
+                u = cand[0]
+                if any(isinstance(x, ast.Name) and x.id == "num_classes" for x in ast.walk(u)):
+                    return True
+                if isinstance(u, ast.Name):
+                    for d in ld.defs.get(u.id, []):
+                        if isinstance(d, ast.IfExp) and mentions_outputs(d.test) and any(isinstance(x, ast.Name) and x.id == "num_classes" for x in ast.walk(d.orelse)):
+                            return True
+                return False
+            return None
+
+        r = units_ok(st.value)
+        if r is True:
+            out.append(ok("R9u", f.qualname, inst, "built with num_classes output units when the region is a root", loc))
+        elif r is False:
+            out.append(viol("R9u", f.qualname, inst, f"`{unparse(st)[:70]}` is reached for a region without consumers (a root) and the stored layer is not built with num_classes output units: a region graph whose root is a leaf region (one variable, depth 0, a (n, 1, 1) image) returns a circuit with another number of output units than requested", loc))
+        else:
+            out.append(unres("R9u", f.qualname, inst, "the stored layer was not resolved to a constructor / factory call: no verdict", loc))
+    if n_sites == 0:
+        from ..model import AnalysisError
+
+        raise AnalysisError("R9u: no store into node_to_layer in build_circuit (anchor vanished)")
+    return out
+
+
+# ------------------------------------------------------------------------------------------ R9n
+def builders_never_refuse(ctx: Ctx, fq: str = "cirkit.templates.region_graph.graph.RegionGraph.build_circuit") -> list[Ob]:
+    """R9n -- the builders of the named sum-product abstractions do not refuse a region graph.
+
+    C16 promises that building a circuit with *any* supported layer abstraction succeeds on every
+    region graph the algorithms return.  The nested builders (one per abstraction) are called for
+    every partition of every region; a ``raise`` inside one whose condition depends on the layers
+    below (their numbers of units) refuses region graphs on which another abstraction succeeds.  The
+    units below one partition legitimately differ: an input region has ``num_input_units`` units, an
+    inner region ``num_sum_units`` -- any unbalanced tree (LinearTree(3), RandomBinaryTree(3), odd
+    quad trees, Chow-Liu) has a partition mixing the two."""
+    f = ctx.repo.func(fq)
+    out: list[Ob] = []
+    nested = [n for n in ast.walk(f.node) if isinstance(n, ast.FunctionDef) and n is not f.node]
+    for b in nested:
+        raises = [r for r in ast.walk(b) if isinstance(r, ast.Raise)]
+        loc = f"{f.module.relpath}:{b.lineno}"
+        if not raises:
+            out.append(ok("R9n", f.qualname, f"refuses:{b.name}", "no refusal in this builder", loc))
+        for r in raises:
+            out.append(viol("R9n", f.qualname, f"refuses:{b.name}", f"the builder refuses (`{unparse(r.exc)[:80] if r.exc is not None else 'raise'}`) when the layers below one partition differ in their number of units, which they do on every unbalanced region graph as soon as num_input_units != num_sum_units", f"{f.module.relpath}:{r.lineno}"))
+    if not nested:
+        out.append(unres("R9n", f.qualname, "refuses", "no nested builder (another formulation): no verdict", f.loc))
+    return out
